@@ -228,3 +228,1134 @@ def cleanupExecBits : Nat := {cm_or}
 end Dulwich.Gen.PathSafe
 """
     return {"PathSafe": src}
+
+
+# ------------------------------------------------------------------------------------------------
+# stream (a): validators, model vs real (in-process: pure functions)
+
+UNITS = [b".", b"g", b"i", b"t", b"G", b"~", b"1", b" ", b":", b"/", b"\\", b"\xe2\x80\x8c"]
+FRAGS = [b".git", b".GIT", b".gIt", b".Git", b"git~1", b"GIT~1", b"gIt~1", b"git~2", b"git~", b".", b"..", b" ", b":",
+         b"::$INDEX_ALLOCATION", b"\\", b"/", b"a", b"g", b".gitmodules", b".g", b"it", b"\xe2\x80\x8c", b"\xef\xbb\xbf",
+         b"\xe2\x80\xae", b"\xc3\x89", b"\xe2\x84\xaa", b"\x80", b"\xff", b"\xed\xa0\x80", b"\xc0\xae", b"\xe2\x80",
+         b"\xf0\x9f\x98\x80", b"\xf4\x90\x80\x80", b"con", b"aux.txt", b"C:", b"", b"\t", b"\x7f", b"I", b"T", b"\xc4\xb0"]
+VALIDATORS = ("d", "n", "h", "b")
+
+
+def _real_validators():
+    import dulwich.index as I
+
+    def both(e):
+        return I.validate_path_element_ntfs(e) and I.validate_path_element_hfs(e)
+    return {"d": I.validate_path_element_default, "n": I.validate_path_element_ntfs,
+            "h": I.validate_path_element_hfs, "b": both}
+
+
+def _fold_real(filtered: bytes) -> bytes:
+    """the value of the model's `fold` parameter (NFD then str.lower) on one input, from the real unicodedata."""
+    import unicodedata
+    return unicodedata.normalize("NFD", filtered.decode("utf-8")).lower().encode("utf-8")
+
+
+def _fold_tables(ctx, strings, sep=b"/"):
+    """For every distinct path component with a non-ASCII byte: model's filtered code points -> real fold value.
+    Returns {component: "filtered=folded"} (absent: ASCII, or undecodable)."""
+    comps = sorted({c for s in strings for c in s.split(sep) if any(b >= 0x80 for b in c)})
+    outs = ctx.driver.batch([f"c17.hfsfilter {hx(c)}" for c in comps])
+    tbl = {}
+    for c, o in zip(comps, outs):
+        if o.startswith("ok "):
+            f = unhx(o[3:])
+            if any(b >= 0x80 for b in f) or True:
+                tbl[c] = f"{hx(f)}={hx(_fold_real(f))}"
+    return tbl
+
+
+def _check_validators(ctx, stream, strings, tagger=None):
+    """validate_path(s, v) for the four validators + the element validators themselves on strings with '/'."""
+    import dulwich.index as I
+    real = _real_validators()
+    tbl = _fold_tables(ctx, strings)
+    lines, meta = [], []
+    for s in strings:
+        pairs = sorted({tbl[c] for c in s.split(b"/") if c in tbl})
+        suffix = "".join(" " + p for p in pairs)
+        for v in VALIDATORS:
+            lines.append(f"c17.path {v} {hx(s)}" + (suffix if v in "hb" else ""))
+            meta.append(("path", v, s))
+        if b"/" in s:
+            wp = tbl.get(s)
+            for v in VALIDATORS:
+                lines.append(f"c17.elem {v} {hx(s)}" + (" " + wp if (wp and v in "hb") else ""))
+                meta.append(("elem", v, s))
+    outs = ctx.driver.batch(lines)
+    for (kind, v, s), o in zip(meta, outs):
+        if kind == "path":
+            r = I.validate_path(s, real[v])
+        else:
+            r = real[v](s)
+        r = "1" if r else "0"
+        ctx.count(stream, (kind, v, s), True, (tagger(s) + ":" if tagger else "") + f"{kind}:{v}:{r}")
+        if o != r:
+            ctx.disagree(stream, {"kind": kind, "validator": v, "input": hx(s)}, o, r)
+        # direct oracle on the validators, in the property's words: a path with an unsafe component is refused
+        if r == "1" and kind == "path":
+            bad = unsafe_component(s, v)
+            if bad is not None:
+                ctx.oracle_fail(stream, {"validator": v, "path": hx(s)},
+                                f"validate_path accepts a path with the unsafe component {bad!r} (validator {v})",
+                                None)
+
+
+# -- the property's own definition of "unsafe" (independent of the model; regex-based)
+
+_RE_NTFS_DOTGIT = re.compile(rb"^(\.git|git~1)[. ]*(:.*)?$", re.I | re.S)
+_HFS_IGN = re.compile("[\u200c-\u200f\u202a-\u202e\u206a-\u206f\ufeff]")
+
+
+def dotgit_like(name: bytes, v: str) -> bool:
+    """Is `name` a spelling of `.git` under the protections in force (d: none, n: NTFS, h: HFS, b: both)?"""
+    if name.lower() == b".git":
+        return True
+    if v in "nb":
+        for seg in name.split(b"\\"):
+            if _RE_NTFS_DOTGIT.match(seg):
+                return True
+        if name.rstrip(b". ").lower() == b".git":
+            return True
+    if v in "hb":
+        try:
+            s = name.decode("utf-8")
+        except UnicodeDecodeError:
+            return False
+        import unicodedata
+        s = unicodedata.normalize("NFD", _HFS_IGN.sub("", s)).lower()
+        if s == ".git":
+            return True
+    return False
+
+
+def unsafe_component(path: bytes, v: str):
+    """First component of `path` that must be refused: empty, `.`, `..`, or `.git`-like for the protections."""
+    for c in path.split(b"/"):
+        if c in (b"", b".", b"..") or dotgit_like(c, v):
+            return c
+    return None
+
+
+def _stream_exhaustive(ctx):
+    L = 6 if ctx.thorough else 5
+    if ctx.lean is not None and not ctx.lean.ok:
+        L = 6
+    CH = 60000
+    buf = []
+    n = 0
+    for ln in range(0, L + 1):
+        for tup in itertools.product(UNITS, repeat=ln):
+            buf.append(b"".join(tup))
+            if len(buf) >= CH:
+                _check_validators(ctx, "validators.exhaustive", buf)
+                n += len(buf)
+                buf = []
+    if buf:
+        _check_validators(ctx, "validators.exhaustive", buf)
+        n += len(buf)
+    ctx.extra_cov["exhaustive_units"] = [hx(u) for u in UNITS]
+    ctx.extra_cov["exhaustive_max_units"] = L
+    ctx.extra_cov["exhaustive_strings"] = n
+
+
+def _stream_fragments(ctx):
+    rng = ctx.rng
+    strings = set()
+    for _ in range(ctx.budget(6000)):
+        k = rng.choice([1, 1, 2, 2, 3, 3, 4, 5, 7])
+        s = b"".join(rng.choice(FRAGS) for _ in range(k))
+        if rng.random() < 0.1:
+            s = bytes(rng.randrange(256) for _ in range(rng.randint(1, 6)))
+        strings.add(s)
+    _check_validators(ctx, "validators.fragments", sorted(strings),
+                      tagger=lambda s: "nonascii" if any(b >= 0x80 for b in s) else "ascii")
+
+
+def _stream_misc(ctx):
+    """dotgit matcher alone; validator selection from real config objects; cleanup_mode; fold-on-ASCII assumption."""
+    import dulwich.index as I
+    from dulwich.config import ConfigDict
+    rng = ctx.rng
+    names = [b"".join(t) for ln in range(0, 5) for t in itertools.product([b".", b"g", b"G", b"i", b"t", b"~", b"1", b" ", b":"], repeat=ln)]
+    outs = ctx.driver.batch([f"c17.dotgit {hx(s)}" for s in names])
+    for s, o in zip(names, outs):
+        r = "1" if I._is_ntfs_dotgit(s) else "0"
+        ctx.count("validators.dotgit", s, True, r)
+        if o != r:
+            ctx.disagree("validators.dotgit", {"name": hx(s)}, o, r)
+    # selection
+    probes = [b".git", b".git ", b"git~1", b".g\xe2\x80\x8cit", b"a", b".GIT"]
+    for ntfs in (None, True, False):
+        for hfs in (None, True, False):
+            cfg = ConfigDict()
+            if ntfs is not None:
+                cfg.set((b"core",), b"protectNTFS", b"true" if ntfs else b"false")
+            if hfs is not None:
+                cfg.set((b"core",), b"protectHFS", b"true" if hfs else b"false")
+            v = I.get_path_element_validator(cfg)
+            eff_n = True if ntfs is None else ntfs   # default re-read by the translator into Gen.protectNtfsDefault
+            eff_h = False if hfs is None else hfs    # sys.platform != "darwin" here
+            sel = ctx.driver.batch([f"c17.select {int(eff_n)} {int(eff_h)}"])[0]
+            real = _real_validators()[sel] if sel in VALIDATORS else None
+            got = [bool(v(p)) for p in probes]
+            want = [bool(real(p)) for p in probes] if real else None
+            ctx.count("validators.select", (ntfs, hfs), True, sel)
+            if got != want:
+                ctx.disagree("validators.select", {"protectNTFS": ntfs, "protectHFS": hfs}, f"{sel}:{want}", f"{got}")
+    # cleanup_mode
+    modes = [0o100644, 0o100755, 0o104755, 0o102755, 0o101644, 0o100666, 0o100777, 0o100600, 0o100700, 0o100100,
+             0o120000, 0o120777, 0o40000, 0o160000, 0o100000, 0, 0o644, 0o7777, 0o107777, 0o170000, 0o140644, 0o10644]
+    modes += [rng.getrandbits(rng.choice([9, 12, 16, 17, 20])) for _ in range(ctx.budget(400))]
+    outs = ctx.driver.batch([f"c17.cleanup {m}" for m in modes])
+    for m, o in zip(modes, outs):
+        r = str(I.cleanup_mode(m))
+        ctx.count("cleanup_mode", m, True, oct(int(r)))
+        if o != r:
+            ctx.disagree("cleanup_mode", {"mode": m}, o, r)
+        if stat.S_ISREG(int(r)) and stat.S_IMODE(int(r)) not in (0o644, 0o755):
+            ctx.oracle_fail("cleanup_mode", {"mode": m}, f"cleanup_mode({oct(m)}) = {oct(int(r))}: not 0644/0755", None)
+    # the assumption the HFS theorems make about `fold`: ASCII in, ASCII lower-case out
+    import unicodedata
+    bad = 0
+    for a in range(128):
+        for b in ([None] + list(range(128)) if ctx.thorough else [None, 0x41, 0x67, 0x7f]):
+            s = chr(a) + (chr(b) if b is not None else "")
+            ctx.count("fold.ascii", s, True)
+            if unicodedata.normalize("NFD", s).lower() != s.encode().lower().decode():
+                bad += 1
+                ctx.disagree("fold.ascii", {"s": s.encode().hex()}, s.encode().lower().hex(),
+                             unicodedata.normalize("NFD", s).lower().encode().hex())
+
+
+
+
+# ------------------------------------------------------------------------------------------------
+# worker side: hostile trees materialised through the real entry points in a sandbox
+#
+# sandbox layout (everything under ctx.scratch):   <base>/src            clone source (optional)
+#                                                  <base>/outer/...      canaries
+#                                                  <base>/outer/wt       the work tree, wt/.git with canaries
+# A tree spec is a list of entries {"n": hex name, "m": mode, and one of "blob": hex | "link": hex | "tree": [...] |
+# "gitlink": 1}; names are arbitrary bytes (may contain '/'); entries are written raw, in the given order.
+
+GIT_LEGIT = ("index", "HEAD", "ORIG_HEAD", "packed-refs", "FETCH_HEAD", "index.lock")
+GIT_LEGIT_DIRS = ("refs", "logs", "objects")
+
+
+def _snap(base: str):
+    """{relpath: descriptor} of everything under base except the work-tree payload (outer/wt minus outer/wt/.git).
+    Inside wt/.git the files an operation legitimately rewrites are recorded by type only."""
+    out = {}
+    wt = os.path.join(base, "outer", "wt")
+    gitdir = os.path.join(wt, ".git")
+
+    def legit(rel_git: str) -> bool:
+        top = rel_git.split("/", 1)[0]
+        return rel_git in GIT_LEGIT or top in GIT_LEGIT_DIRS
+
+    def walk(d):
+        try:
+            ents = sorted(os.scandir(d), key=lambda e: e.name)
+        except OSError as e:
+            out[os.path.relpath(d, base)] = ("unreadable", type(e).__name__)
+            return
+        for e in ents:
+            p = e.path
+            rel = os.path.relpath(p, base)
+            if d == wt and e.name != ".git":
+                continue
+            st = os.lstat(p)
+            m = stat.S_IMODE(st.st_mode)
+            in_git = p.startswith(gitdir + os.sep)
+            lg = in_git and legit(os.path.relpath(p, gitdir))
+            if stat.S_ISLNK(st.st_mode):
+                out[rel] = ("link", os.readlink(p))
+            elif stat.S_ISDIR(st.st_mode):
+                out[rel] = ("dir",) if lg else ("dir", m)
+                walk(p)
+            elif stat.S_ISREG(st.st_mode):
+                if lg:
+                    out[rel] = ("file",)
+                else:
+                    with open(p, "rb") as f:
+                        out[rel] = ("file", m, hashlib.sha1(f.read()).hexdigest())
+            else:
+                out[rel] = ("other", m)
+    walk(base)
+    return out
+
+
+def _snap_diff(a: dict, b: dict) -> list:
+    d = []
+    for k in sorted(set(a) | set(b)):
+        x, y = a.get(k), b.get(k)
+        if x == y:
+            continue
+        # files/dirs an operation legitimately creates or removes in the control dir (recorded by type only)
+        if (x is None or len(x) == 1) and (y is None or len(y) == 1) and (x is None or y is None):
+            continue
+        d.append([k, list(x) if x is not None else None, list(y) if y is not None else None])
+    return d
+
+
+def _wt_listing(wt: str):
+    """[(relpath bytes-hex, type, mode, link target hex)] of the work-tree payload (no following of links)."""
+    out = []
+    bwt = os.fsencode(wt)
+
+    def walk(d, top):
+        try:
+            ents = sorted(os.scandir(d), key=lambda e: e.name)
+        except OSError:
+            return
+        for e in ents:
+            if top and e.name == b".git":
+                continue
+            st = os.lstat(e.path)
+            rel = os.path.relpath(e.path, bwt)
+            if stat.S_ISLNK(st.st_mode):
+                out.append([rel.hex(), "link", 0, os.readlink(e.path).hex()])
+            elif stat.S_ISDIR(st.st_mode):
+                out.append([rel.hex(), "dir", stat.S_IMODE(st.st_mode), ""])
+                walk(e.path, False)
+            elif stat.S_ISREG(st.st_mode):
+                head = b""
+                if e.name == b".git":
+                    with open(e.path, "rb") as f:
+                        head = f.read(8)
+                out.append([rel.hex(), "file", stat.S_IMODE(st.st_mode), head.hex()])
+            else:
+                out.append([rel.hex(), "other", stat.S_IMODE(st.st_mode), ""])
+    walk(bwt, True)
+    return out
+
+
+def _write_tree(store, spec) -> bytes:
+    from dulwich.objects import Blob, ShaFile, Tree
+    raw = b""
+    for e in spec:
+        name = bytes.fromhex(e["n"])
+        mode = e["m"]
+        if "tree" in e:
+            sha = _write_tree(store, e["tree"])
+        elif "gitlink" in e:
+            sha = b"1" * 40
+        else:
+            b = Blob.from_string(bytes.fromhex(e["blob"] if "blob" in e else e["link"]))
+            store.add_object(b)
+            sha = b.id
+        raw += b"%o %s\0" % (mode, name) + bytes.fromhex(sha.decode())
+    t = ShaFile.from_raw_string(Tree.type_num, raw)
+    store.add_object(t)
+    return t.id
+
+
+def _commit(store, tree_id, parents=(), msg=b"m") -> bytes:
+    from dulwich.objects import Commit
+    c = Commit()
+    c.tree = tree_id
+    c.author = c.committer = b"v <v@example.com>"
+    c.author_time = c.commit_time = 0
+    c.author_timezone = c.commit_timezone = 0
+    c.message = msg
+    c.parents = list(parents)
+    store.add_object(c)
+    return c.id
+
+
+def _canaries(base: str):
+    o = os.path.join(base, "outer")
+    os.makedirs(os.path.join(o, "outside_dir", "sub"), exist_ok=True)
+    os.makedirs(os.path.join(o, "empty_dir"), exist_ok=True)
+    for rel, content in (("canary.txt", b"canary\n"), ("outside_dir/x", b"precious x\n"), ("outside_dir/y", b"precious y\n"),
+                         ("outside_dir/sub/y", b"precious sub/y\n"), ("outside_dir/sub/z", b"precious sub/z\n")):
+        with open(os.path.join(o, rel), "wb") as f:
+            f.write(content)
+
+
+def _git_canaries(wt: str):
+    g = os.path.join(wt, ".git")
+    os.makedirs(os.path.join(g, "hooks"), exist_ok=True)
+    os.makedirs(os.path.join(g, "canary_dir"), exist_ok=True)
+    for rel, content, mode in (("canary", b"git canary\n", 0o644), ("hooks/pre-commit", b"#!/bin/sh\nexit 0\n", 0o755),
+                               ("canary_dir/x", b"x\n", 0o644), ("canary_dir/y", b"y\n", 0o644)):
+        pth = os.path.join(g, rel)
+        with open(pth, "wb") as f:
+            f.write(content)
+        os.chmod(pth, mode)
+
+
+def _set_cfg(r, cfg: dict):
+    c = r.get_config()
+    for k in ("protectNTFS", "protectHFS", "symlinks", "filemode"):
+        if cfg.get(k) is not None:
+            c.set((b"core",), k.encode(), b"true" if cfg[k] else b"false")
+    c.write_to_path()
+
+
+def _old_paths(r, kind: str):
+    """tree paths the next update would treat as 'old': index entries / HEAD tree."""
+    from dulwich.object_store import iter_tree_contents
+    try:
+        if kind == "index":
+            return [p.hex() for p in r.open_index()]
+        head = r[b"HEAD"]
+        return [e.path.hex() for e in iter_tree_contents(r.object_store, head.tree)]
+    except Exception:
+        return []
+
+
+def impl_scenario(a):
+    """Run one scenario; returns per step: outcome, snapshot diff outside the payload, payload listing,
+    and the pre-state facts the parent needs to classify a failure."""
+    import io
+    from dulwich import porcelain
+    from dulwich.repo import Repo
+    base = a["base"]
+    assert base.startswith(a["scratch"] + os.sep) and "/../" not in base
+    os.umask(0o022)
+    if os.path.exists(base):
+        shutil.rmtree(base)
+    wt = os.path.join(base, "outer", "wt")
+    os.makedirs(os.path.join(base, "outer"))
+    _canaries(base)
+    os.chdir(os.path.join(base, "outer"))
+    steps = a["steps"]
+    trees = a["trees"]
+    res = []
+    r = None
+    commits = []
+
+    def add_objects(repo):
+        ids = []
+        for spec in trees:
+            tid = _write_tree(repo.object_store, spec)
+            ids.append((tid, _commit(repo.object_store, tid)))
+        return ids
+
+    first = steps[0]
+    if first["op"] == "clone":
+        src = os.path.join(base, "src")
+        os.makedirs(src)
+        sr = Repo.init(src)
+        sc = add_objects(sr)
+        for i, (_, cid) in enumerate(sc):
+            sr.refs[b"refs/heads/b%d" % i] = cid
+        sr.refs.set_symbolic_ref(b"HEAD", b"refs/heads/b%d" % first["t"])
+        sr.close()
+        before = _snap(base)
+        out = "ok"
+        try:
+            r = porcelain.clone(src, wt, checkout=True, errstream=io.BytesIO())
+        except Exception as e:
+            out = type(e).__name__
+        after = _snap(base)
+        # ignore the freshly created control directory in this one diff
+        diff = [d for d in _snap_diff(before, after) if not d[0].startswith("outer/wt/.git") and d[0] != "outer/wt"]
+        listing = _wt_listing(wt) if os.path.isdir(wt) else []
+        res.append({"op": "clone", "out": out, "diff": diff, "wt": listing, "links": [], "old_index": [], "old_head": []})
+        if r is None:
+            if os.path.exists(wt):
+                shutil.rmtree(wt)
+            os.makedirs(wt)
+            r = Repo.init(wt)
+        commits = add_objects(r)
+        steps = steps[1:]
+    else:
+        os.makedirs(wt)
+        r = Repo.init(wt)
+        commits = add_objects(r)
+        r.refs[b"refs/heads/master"] = _commit(r.object_store, _write_tree(r.object_store, []))
+    _set_cfg(r, a.get("cfg", {}))
+    _git_canaries(wt)
+    os.chdir(wt)
+
+    for st in steps:
+        op = st["op"]
+        pre_links = [[x[0], x[3]] for x in _wt_listing(wt) if x[1] == "link"]
+        old_index, old_head = _old_paths(r, "index"), _old_paths(r, "head")
+        before = _snap(base)
+        out = "ok"
+        try:
+            if op in ("reset_hard", "reset_mixed", "reset_soft"):
+                porcelain.reset(r, op.split("_")[1], commits[st["t"]][1])
+            elif op == "checkout":
+                porcelain.checkout(r, commits[st["t"]][1], force=bool(st.get("force")))
+            elif op == "build_index":
+                r.get_worktree().reset_index(commits[st["t"]][0])
+            elif op == "checkout_paths":
+                porcelain.checkout(r, commits[st["t"]][1], paths=[bytes.fromhex(p) for p in st["paths"]])
+            elif op == "stash_pop":
+                head = r.refs[b"HEAD"]
+                ci = _commit(r.object_store, commits[st["i"]][0], [head], b"index on x")
+                cs = _commit(r.object_store, commits[st["t"]][0], [head, ci], b"WIP on x")
+                try:
+                    old = r.refs[b"refs/stash"]
+                except KeyError:
+                    old = None
+                r.refs.set_if_equals(b"refs/stash", old, cs, message=b"WIP on x")
+                porcelain.stash_pop(r)
+            elif op == "patch":
+                porcelain.apply_patch(r, io.BytesIO(bytes.fromhex(st["patch"])), strip=st.get("strip", 1))
+            elif op == "patch_to":
+                # the patch HEAD-tree -> tree t as dulwich itself writes it
+                from dulwich.patch import write_tree_diff
+                buf = io.BytesIO()
+                write_tree_diff(buf, r.object_store, r[b"HEAD"].tree, commits[st["t"]][0])
+                porcelain.apply_patch(r, io.BytesIO(buf.getvalue()))
+            else:
+                raise ValueError("unknown op " + op)
+        except Exception as e:
+            out = type(e).__name__ + ": " + str(e)[:120]
+        after = _snap(base)
+        res.append({"op": op, "out": out, "diff": _snap_diff(before, after), "wt": _wt_listing(wt),
+                    "links": pre_links, "old_index": old_index, "old_head": old_head})
+    try:
+        r.close()
+    except Exception:
+        pass
+    os.chdir(a["scratch"])
+    if not a.get("keep"):
+        shutil.rmtree(base, ignore_errors=True)
+    return res
+
+
+
+
+def impl_bift(a):
+    """One real build_index_from_tree run on a prepared directory tree; returns the entry list the real
+    iter_tree_contents produced, the outcome class and a walk of the whole sandbox (for the model comparison)."""
+    import errno
+    from dulwich.index import InvalidPathError, build_index_from_tree
+    from dulwich.object_store import MemoryObjectStore, iter_tree_contents
+    import dulwich.index as I
+    base = a["base"]
+    assert base.startswith(a["scratch"] + os.sep) and "/../" not in base
+    os.umask(0o022)
+    if os.path.exists(base):
+        shutil.rmtree(base)
+    os.makedirs(base)
+    bb = os.fsencode(base)
+    for rel, kind, *pl in a["nodes"]:
+        pth = os.path.join(bb, bytes.fromhex(rel))
+        if kind == "d":
+            os.makedirs(pth, exist_ok=True)
+        elif kind == "f":
+            with open(pth, "wb") as f:
+                f.write(bytes.fromhex(pl[1]))
+            os.chmod(pth, pl[0])
+        else:
+            t = bytes.fromhex(pl[0])
+            os.symlink(bb + t if t.startswith(b"/") else t, pth)
+    store = MemoryObjectStore()
+
+    def absolutise(spec):
+        out = []
+        for e in spec:
+            e = dict(e)
+            if "link" in e and bytes.fromhex(e["link"]).startswith(b"/"):
+                e["link"] = (bb + bytes.fromhex(e["link"])).hex()
+            if "tree" in e:
+                e["tree"] = absolutise(e["tree"])
+            out.append(e)
+        return out
+    tid = _write_tree(store, absolutise(a["tree"]))
+    entries = []
+    for e in iter_tree_contents(store, tid):
+        if stat.S_ISDIR(e.mode):
+            continue
+        c = b"" if (e.mode & 0o170000) == 0o160000 else store[e.sha].as_raw_string()
+        if (e.mode & 0o170000) == 0o120000 and c.startswith(bb + b"/"):
+            c = c[len(bb):]
+        entries.append([e.path.hex(), e.mode, c.hex()])
+    vf = {"d": I.validate_path_element_default, "n": I.validate_path_element_ntfs, "h": I.validate_path_element_hfs,
+          "b": lambda x: I.validate_path_element_ntfs(x) and I.validate_path_element_hfs(x)}[a["v"]]
+    wt = os.path.join(bb, bytes.fromhex(a["root"]))
+    out = "ok"
+    os.chdir(base)
+    try:
+        build_index_from_tree(wt, os.path.join(bb, b"_index"), store, tid, honor_filemode=True, validate_path_element=vf)
+    except InvalidPathError:
+        out = "InvalidPath"
+    except OSError as e:
+        out = errno.errorcode.get(e.errno, "OSError")
+    walk = {}
+
+    def rec(d):
+        for e in sorted(os.scandir(d), key=lambda x: x.name):
+            rel = os.path.relpath(e.path, bb)
+            if rel in (b"_index", b"_index.lock"):
+                continue
+            st = os.lstat(e.path)
+            if stat.S_ISLNK(st.st_mode):
+                t = os.readlink(e.path)
+                if t.startswith(bb + b"/"):
+                    t = t[len(bb):]
+                walk[rel.hex()] = "l:" + (t.hex() or "-")
+            elif stat.S_ISDIR(st.st_mode):
+                walk[rel.hex()] = "d"
+                rec(e.path)
+            else:
+                with open(e.path, "rb") as f:
+                    walk[rel.hex()] = f"f:{stat.S_IMODE(st.st_mode)}:" + (f.read().hex() or "-")
+    rec(bb)
+    os.chdir(a["scratch"])
+    shutil.rmtree(base, ignore_errors=True)
+    return {"entries": entries, "out": out, "walk": walk}
+
+
+# ------------------------------------------------------------------------------------------------
+# parent side: scenario construction, the oracle in the property's words, failure classification
+
+def E_blob(name: bytes, content: bytes = b"data\n", mode: int = 0o100644):
+    return {"n": name.hex(), "m": mode, "blob": content.hex()}
+
+
+def E_link(name: bytes, target: bytes):
+    return {"n": name.hex(), "m": 0o120000, "link": target.hex()}
+
+
+def E_tree(name: bytes, entries: list):
+    return {"n": name.hex(), "m": 0o40000, "tree": entries}
+
+
+def E_gitlink(name: bytes):
+    return {"n": name.hex(), "m": 0o160000, "gitlink": 1}
+
+
+def mk_tree(items) -> list:
+    """items: (path, kind, payload[, mode]); kind f=blob l=symlink g=gitlink; path split on '/' into subtrees,
+    unless kind is upper-case (F/L): then the whole path is ONE raw entry name (may contain '/')."""
+    root: list = []
+    index = {(): root}
+    for it in items:
+        path, kind, payload = it[0], it[1], it[2]
+        mode = it[3] if len(it) > 3 else 0o100644
+        comps = [path] if kind.isupper() else path.split(b"/")
+        cur = ()
+        for c in comps[:-1]:
+            nxt = cur + (c,)
+            if nxt not in index:
+                sub: list = []
+                index[cur].append(E_tree(c, sub))
+                index[nxt] = sub
+            cur = nxt
+        k = kind.lower()
+        if k == "f":
+            index[cur].append(E_blob(comps[-1], payload, mode))
+        elif k == "l":
+            index[cur].append(E_link(comps[-1], payload))
+        else:
+            index[cur].append(E_gitlink(comps[-1]))
+    return root
+
+
+def tree_paths(spec, prefix=b""):
+    out = []
+    for e in spec:
+        n = bytes.fromhex(e["n"])
+        p = prefix + b"/" + n if prefix else n
+        if "tree" in e:
+            out += tree_paths(e["tree"], p)
+        else:
+            out.append((p, e))
+    return out
+
+
+LINK_TARGETS = [b"../outside_dir", b"..", b".git", b".git/hooks", b".git/canary_dir", b"../outside_dir/sub", b".",
+                b"sib", b"../empty_dir", b"/ABS/outer/outside_dir", b"../outside_dir/x", b".git/canary", b".git/config"]
+UNSAFE_NAMES = [b".git", b".GIT", b".Git", b".git ", b".git.", b".git . .", b"git~1", b"GIT~1", b"git~1 .",
+                b".git::$INDEX_ALLOCATION", b".git:stream", b".g\xe2\x80\x8cit", b"\xef\xbb\xbf.git", b".gi\xe2\x80\xaet",
+                b"a\\.git", b".git\\x", b"..", b".", b"", b". ", b".. "]
+RAW_NAMES = [b"../outside_dir/pwn", b"../pwn", b"d/../../outside_dir/pwn", b"d/../../pwn", b"./x", b"d//x", b"/ABS/outer/abs_pwn",
+             b".git/hooks/pwn", b".GIT/hooks/pwn", b"d/.git/config", b".git/canary", b"../outside_dir/x",
+             b"..", b"C:/x", b"d/./x", b"a/b/../../../outside_dir/pwn", b".git /hooks/pwn", b"git~1/hooks/pwn"]
+MODES = [0o100644, 0o100755, 0o104755, 0o102755, 0o101644, 0o100666, 0o100777, 0o100002, 0o106777, 0o100664]
+KEEP = (b"keep", "f", b"keep\n")
+
+
+def _abs(b: bytes, base: str) -> bytes:
+    """the placeholder ABS stands for the sandbox's absolute path without its leading slash (never a system path)"""
+    return b.replace(b"ABS", os.fsencode(base)[1:])
+
+
+def _fix_abs(spec, base):
+    out = []
+    for e in spec:
+        e = dict(e)
+        e["n"] = _abs(bytes.fromhex(e["n"]), base).hex()
+        if "link" in e:
+            e["link"] = _abs(bytes.fromhex(e["link"]), base).hex()
+        if "tree" in e:
+            e["tree"] = _fix_abs(e["tree"], base)
+        out.append(e)
+    return out
+
+
+def effective_v(cfg: dict) -> str:
+    n = cfg.get("protectNTFS")
+    hf = cfg.get("protectHFS")
+    n = True if n is None else n
+    hf = False if hf is None else hf
+    return {(False, False): "d", (True, False): "n", (False, True): "h", (True, True): "b"}[(n, hf)]
+
+
+def _resolve_rel(rel: bytes, links: dict, base: str, depth=0):
+    """lexical resolution of <base>/outer/wt/<rel> through the work tree's pre-state symlinks (all components but
+    following a final link too); returns a path relative to base (bytes), or None."""
+    import posixpath as pp
+    if depth > 8:
+        return None
+    cur = b"outer/wt"
+    comps = rel.split(b"/")
+    for i, c in enumerate(comps):
+        nxt = pp.normpath(pp.join(cur, c))
+        key = pp.relpath(nxt, b"outer/wt") if nxt.startswith(b"outer/wt/") else None
+        if key is not None and key in links:
+            t = links[key]
+            if t.startswith(b"/"):
+                bb = os.fsencode(base)
+                if not t.startswith(bb + b"/"):
+                    return None
+                dest = pp.normpath(t[len(bb) + 1:])
+            else:
+                dest = pp.normpath(pp.join(cur, t))
+            if dest.startswith(b"outer/wt/"):
+                return _resolve_rel(pp.join(pp.relpath(dest, b"outer/wt"), *comps[i + 1:]) if comps[i + 1:] else
+                                    pp.relpath(dest, b"outer/wt"), links, base, depth + 1)
+            cur = dest
+        else:
+            cur = nxt
+    return cur
+
+
+def classify(step: dict, sr: dict, base: str):
+    """Narrow failing-input classes (matched against findings/C17.jsonl); None = unclassified."""
+    import posixpath as pp
+    diff = sr["diff"]
+    removed = [d for d in diff if d[2] is None]
+    changed = [d for d in diff if d[2] is not None]
+    links = {bytes.fromhex(p): bytes.fromhex(t) for p, t in sr["links"]}
+    op = sr["op"]
+    if op in ("reset_hard", "checkout") and removed and not changed:
+        old = [bytes.fromhex(p) for p in (sr["old_index"] if op == "reset_hard" else sr["old_head"])]
+        allowed = set()
+        for p in old:
+            comps = p.split(b"/")
+            for k in range(1, len(comps)):
+                pre = b"/".join(comps[:k])
+                if pre in links:
+                    dest = _resolve_rel(pre, links, base)
+                    full = _resolve_rel(p, links, base)
+                    if dest is None or full is None:
+                        break
+                    q = full
+                    while q and q != dest and q != b".":
+                        allowed.add(q)
+                        q = pp.dirname(q)
+                    break
+        if allowed and all(os.fsencode(d[0]) in allowed for d in removed):
+            return "uwt-delete-through-symlinked-leading-dir"
+    if op in ("patch", "patch_to") and changed and not removed:
+        dests = {_resolve_rel(l, links, base) for l in links}
+        if all(os.fsencode(d[0]) in dests for d in changed):
+            return "patch-write-through-final-symlink"
+    return None
+
+
+def judge(ctx, stream: str, case: dict, res, base: str):
+    """The oracle, in the property's words, on one scenario's per-step results."""
+    v = effective_v(case.get("cfg", {}))
+    steps = case["steps"]
+    for i, sr in enumerate(res):
+        step = steps[i] if i < len(steps) else {}
+        if sr["diff"]:
+            cls = classify(step, sr, base)
+            ctx.oracle_fail(stream, {**case, "failing_step": i, "diff": sr["diff"][:6], "outcome": sr["out"]},
+                            f"step {i} ({sr['op']}) created/changed/deleted outside the work tree or inside .git: "
+                            f"{sr['diff'][:3]}", cls)
+        for relhex, typ, mode, extra in sr["wt"]:
+            rel = bytes.fromhex(relhex)
+            if typ in ("file", "dir") and mode & 0o7002:
+                ctx.oracle_fail(stream, {**case, "failing_step": i, "path": relhex, "mode": oct(mode)},
+                                f"step {i} ({sr['op']}) left {rel!r} with mode {oct(mode)} (set-id/sticky/world-writable)",
+                                None)
+            for comp in rel.split(b"/"):
+                if dotgit_like(comp, v):
+                    if comp == b".git" and typ == "file" and bytes.fromhex(extra) == b"gitdir: " and b"/" in rel:
+                        continue   # submodule placeholder written by dulwich itself below a gitlink path
+                    ctx.oracle_fail(stream, {**case, "failing_step": i, "path": relhex},
+                                    f"step {i} ({sr['op']}) materialised the unsafe name {comp!r} at {rel!r} "
+                                    f"(protections {v})", None)
+                    break
+
+
+def run_scenario(ctx, worker, stream: str, case: dict, tag: str, n: int):
+    base = str(ctx.scratch / "p" / "q" / f"c{n}")
+    trees = [_fix_abs(t, base) for t in case["trees"]]
+    steps = []
+    for st in case["steps"]:
+        st = dict(st)
+        if "patch" in st:
+            st["patch"] = _abs(bytes.fromhex(st["patch"]), base).hex()
+        steps.append(st)
+    rep = worker.ask({"mod": MOD, "op": "scenario", "args": {"base": base, "scratch": str(ctx.scratch), "trees": trees,
+                                                            "steps": steps, "cfg": case.get("cfg", {})}}, timeout=120)
+    ctx.count(stream, json.dumps(case, sort_keys=True), True, tag)
+    if "r" not in rep:
+        # a crash / unexpected harness-level exception is not a verdict about the property
+        ctx.notes.append(f"scenario {tag} did not complete: {str(rep)[:200]}")
+        ctx.extra_cov["scenario_errors"] = ctx.extra_cov.get("scenario_errors", 0) + 1
+        return None
+    judge(ctx, stream, case, rep["r"], base)
+    for sr in rep["r"]:
+        key = sr["op"] + ":" + ("ok" if sr["out"] == "ok" else sr["out"].split(":")[0])
+        d = ctx.hist.setdefault(stream + ".outcomes", {})
+        d[key] = d.get(key, 0) + 1
+    return rep["r"]
+
+
+def _patch_new(path: bytes, content: bytes = b"pwned\n", mode: bytes = b"100644") -> bytes:
+    return (b"diff --git a/" + path + b" b/" + path + b"\nnew file mode " + mode + b"\n--- /dev/null\n+++ b/" + path +
+            b"\n@@ -0,0 +1 @@\n+" + content)
+
+
+def _patch_del(path: bytes, content: bytes) -> bytes:
+    return (b"diff --git a/" + path + b" b/" + path + b"\ndeleted file mode 100644\n--- a/" + path + b"\n+++ /dev/null\n"
+            b"@@ -1 +0,0 @@\n-" + content)
+
+
+def _patch_mod(path: bytes, old: bytes, new: bytes) -> bytes:
+    return (b"diff --git a/" + path + b" b/" + path + b"\n--- a/" + path + b"\n+++ b/" + path + b"\n@@ -1 +1 @@\n-" + old + b"+" + new)
+
+
+FIRST_OPS = ["clone", "reset_hard", "checkout", "checkout_force", "build_index", "stash_pop"]
+NEXT_OPS = ["reset_hard", "checkout", "checkout_force", "build_index", "stash_pop", "reset_mixed", "reset_soft", "patch_to"]
+
+
+def _step(op: str, t: int, i=None) -> dict:
+    if op == "checkout_paths":
+        return {"op": op, "t": t, "paths": [p.hex() for p in i]}
+    if op == "checkout_force":
+        return {"op": "checkout", "t": t, "force": 1}
+    if op == "stash_pop":
+        return {"op": "stash_pop", "t": t, "i": t if i is None else i}
+    return {"op": op, "t": t}
+
+
+def fixed_scenarios():
+    """Deterministic part: the collision templates of the quantifier (symlink then directory of the same name,
+    directory then symlink, file then directory), the delete-phase (F18) shapes, unsafe names under each
+    protection setting, mode bits, hostile patches."""
+    out = []
+    for T in LINK_TARGETS:
+        Tl = mk_tree([KEEP, (b"d", "l", T)])
+        Td = mk_tree([KEEP, (b"d/x", "f", b"dx\n"), (b"d/sub/y", "f", b"dy\n"), (b"d/hooks/pwn", "f", b"#!/bin/sh\n", 0o100755)])
+        Tf = mk_tree([KEEP, (b"d", "f", b"file d\n")])
+        Te = mk_tree([KEEP])
+        Tu = mk_tree([KEEP, (b"d", "l", T), (b"zz/.git/evil", "f", b"evil\n")])
+        trees = [Tl, Td, Tf, Te, Tu]
+        seqs = [
+            # symlink then directory of the same name
+            [("reset_hard", 0), ("reset_hard", 1)], [("clone", 0), ("checkout_force", 1)], [("build_index", 0), ("build_index", 1)],
+            [("reset_hard", 0), ("stash_pop", 1)], [("checkout", 0), ("patch_to", 1)], [("clone", 0), ("checkout", 1)],
+            # directory then symlink then something else (delete phase)
+            [("reset_hard", 1), ("reset_hard", 0), ("reset_hard", 3)], [("checkout", 1), ("checkout_force", 0), ("checkout_force", 3)],
+            [("build_index", 1), ("reset_hard", 0), ("reset_hard", 2)],
+            # index / HEAD says d/x while d is a symlink on disk (F18 shapes)
+            [("reset_hard", 0), ("reset_mixed", 1), ("reset_hard", 3)], [("reset_hard", 0), ("reset_soft", 1), ("checkout_force", 3)],
+            [("reset_hard", 0), ("reset_soft", 1), ("checkout", 3)],
+            [("reset_hard", 0), ("stash_pop", 3, 1), ("reset_hard", 3)], [("reset_hard", 0), ("stash_pop", 3, 1), ("reset_hard", 2)],
+            # aborted update (later invalid entry) then another
+            [("reset_hard", 1), ("reset_hard", 4), ("reset_hard", 3)], [("checkout", 1), ("checkout_force", 4), ("checkout_force", 3)],
+            # symlink then regular file of the same name (the file must replace the link, not be written through it)
+            [("reset_hard", 0), ("build_index", 2)], [("reset_hard", 0), ("stash_pop", 2)], [("reset_hard", 0), ("reset_hard", 2)],
+            [("clone", 0), ("checkout_force", 2)], [("reset_hard", 0), ("patch_to", 2)], [("build_index", 0), ("checkout_paths", 2, [b"d"])],
+            [("reset_hard", 0), ("checkout_paths", 1, [b"d/x", b"d/sub/y", b"d/hooks/pwn"])],
+            # the index / HEAD no longer lists d while d is still a symlink on disk, then a tree with d/... (write phase)
+            [("reset_hard", 0), ("reset_mixed", 3), ("reset_hard", 1)], [("reset_hard", 0), ("reset_soft", 3), ("checkout_force", 1)],
+            [("reset_hard", 0), ("reset_soft", 3), ("checkout", 1)], [("reset_hard", 0), ("reset_mixed", 3), ("stash_pop", 1)],
+            # file then directory, directory then file
+            [("reset_hard", 2), ("reset_hard", 1), ("reset_hard", 0)], [("clone", 2), ("checkout_force", 1), ("checkout_force", 2)],
+        ]
+        for sq in seqs:
+            out.append(("collide:" + T.decode(), {"trees": trees, "steps": [_step(*x) for x in sq], "cfg": {}}))
+        # hostile patches against a work tree that has the link
+        for pt in (_patch_new(b"d"), _patch_new(b"d/pwn"), _patch_new(b"d/sub/pwn"), _patch_del(b"d/x", b"precious x\n"),
+                   _patch_mod(b"d/x", b"precious x\n", b"pwned\n"), _patch_mod(b"d", b"git canary\n", b"pwned\n")):
+            out.append(("patch:" + T.decode(), {"trees": trees, "steps": [_step("reset_hard", 0), {"op": "patch", "patch": pt.hex()}],
+                                               "cfg": {}}))
+    cfgs = [{}, {"protectNTFS": False}, {"protectHFS": True}, {"protectNTFS": False, "protectHFS": True}]
+    for ci, cfg in enumerate(cfgs):
+        for ui, U in enumerate(UNSAFE_NAMES):
+            shapes = [mk_tree([KEEP, (U + b"/hooks/pwn", "f", b"#!/bin/sh\n", 0o100755), (U + b"/canary", "f", b"x\n")]) if U else
+                      [E_blob(b"keep"), E_tree(b"", [E_blob(b"pwn")])],
+                      [E_blob(b"keep"), E_blob(U, b"blob at unsafe name\n")],
+                      mk_tree([KEEP, (b"d/" + U + b"/config", "f", b"[core]\n")]) if U else [E_blob(b"keep"), E_tree(b"d", [E_blob(b"")])],
+                      [E_blob(b"keep"), E_link(U, b"../outside_dir")]]
+            for si, spec in enumerate(shapes):
+                op = FIRST_OPS[(ui + si + ci) % len(FIRST_OPS)]
+                if op == "clone" and cfg:
+                    op = "reset_hard"
+                steps = [_step(op, 0)]
+                if (ui + si) % 3 == 0:
+                    steps.append(_step("reset_hard", 1))
+                out.append((f"unsafe:{effective_v(cfg)}", {"trees": [spec, mk_tree([KEEP])], "steps": steps, "cfg": cfg}))
+        for ri, R in enumerate(RAW_NAMES):
+            spec = [E_blob(b"keep"), E_tree(b"d", [E_blob(b"ok")]), E_blob(R, b"raw name\n")]
+            out.append((f"raw:{effective_v(cfg)}", {"trees": [spec, mk_tree([KEEP])],
+                                                   "steps": [_step(FIRST_OPS[(ri + ci) % len(FIRST_OPS)] if not (cfg and (ri + ci) % len(FIRST_OPS) == 0) else "reset_hard", 0),
+                                                             _step("reset_hard", 1)], "cfg": cfg}))
+            out.append((f"rawpatch:{effective_v(cfg)}", {"trees": [mk_tree([KEEP])],
+                                                        "steps": [_step("reset_hard", 0), {"op": "patch", "patch": _patch_new(R).hex()},
+                                                                  {"op": "patch", "patch": _patch_new(R).hex(), "strip": 0}], "cfg": cfg}))
+    for m in MODES:
+        spec = [E_blob(b"keep"), E_blob(b"f", b"x\n", m), E_tree(b"d", [E_blob(b"g", b"y\n", m)])]
+        for op in ("clone", "reset_hard", "build_index", "stash_pop", "patch_to"):
+            steps = [_step(op, 0)] if op != "patch_to" else [_step("reset_hard", 1), _step("patch_to", 0)]
+            out.append(("modes", {"trees": [spec, mk_tree([KEEP])], "steps": steps, "cfg": {}}))
+        out.append(("modes", {"trees": [mk_tree([KEEP])], "steps": [_step("reset_hard", 0),
+                                                                    {"op": "patch", "patch": _patch_new(b"suid", b"x\n", b"%o" % m).hex()}],
+                              "cfg": {}}))
+    return out
+
+
+def random_scenario(rng):
+    dirs = [b"d", b"e", b"lnk"]
+    def rand_tree():
+        items = [KEEP]
+        used = set()
+        for _ in range(rng.randint(1, 4)):
+            d = rng.choice(dirs)
+            k = rng.random()
+            if k < 0.3:
+                p, it = d, (d, "l", rng.choice(LINK_TARGETS))
+            elif k < 0.4:
+                p, it = d, (d, "f", b"file\n", rng.choice(MODES))
+            elif k < 0.45:
+                p, it = d, (d, "g", None)
+            elif k < 0.55:
+                sub = rng.choice([b"l2", b"sub"])
+                p, it = d + b"/" + sub, (d + b"/" + sub, "l", rng.choice(LINK_TARGETS + [b"../..", b"../../outside_dir"]))
+            elif k < 0.63:
+                r = rng.choice(RAW_NAMES)
+                p, it = r, (r, "F", b"raw\n")
+            elif k < 0.7:
+                u = rng.choice(UNSAFE_NAMES)
+                p, it = d + b"/" + u, (d + b"/" + u + b"/f", "f", b"u\n")
+            else:
+                leaf = rng.choice([b"x", b"y", b"sub/y", b"sub/z", b"hooks/pre-commit", b"canary", b"config", b"pwn", b"l2/x", b"sub/l2/z"])
+                p, it = d + b"/" + leaf, (d + b"/" + leaf, "f", rng.choice([b"precious x\n", b"new\n", b"git canary\n"]), rng.choice(MODES))
+            # a path may not be both a leaf and a directory in one spec (mk_tree would emit duplicates; allowed rarely)
+            if any(p == q or p.startswith(q + b"/") or q.startswith(p + b"/") for q in used) and rng.random() < 0.9:
+                continue
+            used.add(p)
+            items.append(it)
+        return mk_tree(items)
+    trees = [rand_tree() for _ in range(3)] + [mk_tree([KEEP])]
+    n = rng.choice([2, 3, 3])
+    steps = []
+    for i in range(n):
+        op = rng.choice(FIRST_OPS if i == 0 else NEXT_OPS)
+        t = rng.randrange(len(trees))
+        steps.append(_step(op, t, rng.randrange(len(trees))))
+    if rng.random() < 0.15:
+        steps.append({"op": "patch", "patch": _patch_new(rng.choice([b"d", b"e", b"lnk", b"d/x", b"lnk/pwn", b"d/sub/pwn"])).hex()})
+    cfg = rng.choice([{}, {}, {}, {"protectNTFS": False}, {"protectHFS": True}, {"symlinks": True, "filemode": False}])
+    if steps[0]["op"] == "clone":
+        cfg = {}
+    return {"trees": trees, "steps": steps, "cfg": cfg}
+
+
+# ------------------------------------------------------------------------------------------------
+
+def run(ctx: core.Ctx):
+    ctx.assumptions += [
+        "POSIX host: the tests guarded by os.name == 'nt' (backslash, reserved device names, drive prefix) are "
+        "neither modelled nor executed; case-insensitive / normalising file systems are not executed",
+        "Unicode NFD + str.lower() of the HFS validator is a parameter (`fold`) of the model; its value on every "
+        "input that occurs is taken from the real unicodedata at run time; the theorems assume only that it maps "
+        "ASCII to ASCII lower case (checked in stream fold.ascii)",
+    ]
+    _stream_misc(ctx)
+    _stream_fragments(ctx)
+    _stream_exhaustive(ctx)
+    _stream_bift(ctx)
+    _stream_sequences(ctx)
+
+
+
+BIFT_TARGETS = [b"../outside_dir", b"..", b"/outer/outside_dir", b"e", b"d", b"../outside_dir/x", b"nowhere", b".", b"e/f",
+                b"../../outer/outside_dir/sub", b"loop"]
+
+
+def gen_bift_case(rng):
+    """initial directory tree (work tree `outer/wt` + canaries + leftovers of an earlier checkout) and a tree."""
+    nodes = [[b"outer".hex(), "d"], [b"outer/wt".hex(), "d"], [b"outer/outside_dir".hex(), "d"],
+             [b"outer/outside_dir/sub".hex(), "d"], [b"outer/outside_dir/x".hex(), "f", 0o644, b"precious".hex()],
+             [b"outer/outside_dir/sub/y".hex(), "f", 0o600, b"precious".hex()], [b"outer/canary".hex(), "f", 0o644, b"c".hex()]]
+    names = [b"a", b"d", b"e", b"loop"]
+    present = {}
+    for n in names:
+        k = rng.random()
+        if k < 0.35:
+            continue
+        if k < 0.6:
+            present[n] = "l"
+            nodes.append([(b"outer/wt/" + n).hex(), "l", (n if n == b"loop" and rng.random() < 0.5 else rng.choice(BIFT_TARGETS)).hex()])
+        elif k < 0.8:
+            present[n] = "d"
+            nodes.append([(b"outer/wt/" + n).hex(), "d"])
+            for leaf in rng.sample([b"f", b"x", b"sub", b"l"], rng.randint(0, 3)):
+                kk = rng.random()
+                pth = (b"outer/wt/" + n + b"/" + leaf).hex()
+                if kk < 0.4:
+                    nodes.append([pth, "f", rng.choice([0o644, 0o755, 0o600]), rng.choice([b"old", b"data\n", b""]).hex()])
+                elif kk < 0.7:
+                    nodes.append([pth, "l", rng.choice(BIFT_TARGETS + [b"../..", b"../d", b"../../outside_dir"]).hex()])
+                else:
+                    nodes.append([pth, "d"])
+        else:
+            present[n] = "f"
+            nodes.append([(b"outer/wt/" + n).hex(), "f", rng.choice([0o644, 0o755]), rng.choice([b"old", b"data\n"]).hex()])
+    items = []
+    used = set()
+    for _ in range(rng.randint(1, 6)):
+        n = rng.choice(names)
+        k = rng.random()
+        if k < 0.2:
+            p, it = n, (n, "l", rng.choice(BIFT_TARGETS))
+        elif k < 0.3:
+            p, it = n, (n, "f", rng.choice([b"data\n", b"new", b"old"]), rng.choice(MODES))
+        elif k < 0.35:
+            p, it = n, (n, "g", None)
+        elif k < 0.42:
+            r = rng.choice([b"../outside_dir/pwn", b"d/../../outside_dir/pwn", b".git/x", b"d/.GIT/x", b"d//x", b"./x", b"d/.git /x", b"git~1"])
+            p, it = r, (r, "F", b"raw")
+        else:
+            leaf = rng.choice([b"f", b"x", b"sub/y", b"sub/z", b"l", b"l/q", b"x/deep/er", b"sub"])
+            kind = rng.choice(["f", "f", "f", "l", "g"])
+            p = n + b"/" + leaf
+            it = (p, kind, rng.choice(BIFT_TARGETS) if kind == "l" else rng.choice([b"data\n", b"new", b"old", b"precious"]),
+                  rng.choice(MODES))
+        if any(p == q or p.startswith(q + b"/") or q.startswith(p + b"/") for q in used):
+            continue
+        used.add(p)
+        items.append(it)
+    if not items:
+        items = [(b"a", "f", b"x")]
+    return {"nodes": nodes, "tree": mk_tree(items), "v": rng.choice(["d", "n", "n"]), "root": b"outer/wt".hex()}
+
+
+def _stream_bift(ctx, scale=1):
+    """(b) build_index_from_tree: the Lean model on the abstract file system vs the real function on a real one."""
+    w = core.Worker("py", mem_mb=2048)
+    try:
+        cases = [gen_bift_case(ctx.rng) for _ in range(ctx.budget(500) * scale)]
+        reps = []
+        for i, c in enumerate(cases):
+            rep = w.ask({"mod": MOD, "op": "bift", "args": {**c, "base": str(ctx.scratch / "p" / "q" / f"b{i}"),
+                                                           "scratch": str(ctx.scratch)}}, timeout=60)
+            reps.append(rep.get("r"))
+            if "r" not in rep:
+                ctx.notes.append(f"bift case did not complete: {str(rep)[:200]}")
+        lines, idx = [], []
+        for c, r in zip(cases, reps):
+            if r is None:
+                continue
+            nodes = [":".join([n[0], n[1]] + ([str(n[2]), n[3] or "-"] if n[1] == "f" else [n[2] or "-"] if n[1] == "l" else []))
+                     for n in c["nodes"]]
+            ents = [f"{p or '-'}:{m}:{cc or '-'}" for p, m, cc in r["entries"]]
+            queries = sorted(set(r["walk"]) | {n[0] for n in c["nodes"]})
+            lines.append(" ".join(["c17.bift", c["v"], c["root"], str(len(nodes))] + nodes + [str(len(ents))] + ents + queries))
+            idx.append((c, r))
+        outs = ctx.driver.batch(lines)
+        for (c, r), o in zip(idx, outs):
+            parts = o.split(" ")
+            if len(parts) < 3:
+                raise core.InfraError(f"driver answered {o!r} to c17.bift")
+            status, nlog = parts[0], parts[1]
+            model = dict(x.split("=", 1) for x in parts[3:] if "=" in x)
+            real = {k: r["walk"].get(k, "-") for k in model}
+            ctx.count("bift.model", json.dumps(c, sort_keys=True), True, f"{c['v']}:{r['out']}:log{min(int(nlog), 9) if nlog.isdigit() else '?'}")
+            if status != r["out"] or model != real:
+                diff = {k: (model[k], real[k]) for k in model if model[k] != real[k]}
+                ctx.disagree("bift.model", {"case": c, "entries": r["entries"]}, f"{status} {diff}"[:600], f"{r['out']}", "py")
+            # direct oracle on the same run: nothing outside outer/wt changed
+            init = {}
+            for n in c["nodes"]:
+                init[n[0]] = "d" if n[1] == "d" else (f"f:{n[2]}:{n[3] or '-'}" if n[1] == "f" else f"l:{n[2] or '-'}")
+            for k in set(init) | set(r["walk"]):
+                rel = bytes.fromhex(k)
+                if rel == b"outer/wt" or rel.startswith(b"outer/wt/"):
+                    continue
+                if init.get(k) != r["walk"].get(k):
+                    ctx.oracle_fail("bift.model", {"bift_case": c, "path": k},
+                                    f"build_index_from_tree changed {rel!r} outside the work tree: "
+                                    f"{init.get(k)} -> {r['walk'].get(k)}", None)
+                    break
+        if idx:
+            ctx.sample({"stream": "bift.model", "case": idx[0][0], "real": idx[0][1]["out"], "model": outs[0][:200]})
+    finally:
+        w.close()
+
+
+def _stream_sequences(ctx, scale=1):
+    """(c) the direct oracle: sequences of hostile trees through the real entry points, snapshot before/after."""
+    w = core.Worker("py", mem_mb=2048)
+    n = 0
+    try:
+        for f in sorted((core.VERIF / "corpus" / "C17").glob("*.json")):
+            c = json.loads(f.read_text())
+            before = dict(ctx.known_hit)
+            nf = len(ctx.oracle_failures)
+            run_scenario(ctx, w, "seq.corpus", c["case"], f.stem, n)
+            n += 1
+            if c.get("expect_class") and ctx.known_hit == before and len(ctx.oracle_failures) == nf:
+                ctx.notes.append(f"corpus witness {f.name} no longer fails (finding fixed?)")
+        fixed = fixed_scenarios()
+        ctx.extra_cov["fixed_scenarios"] = len(fixed)
+        for tag, case in fixed:
+            run_scenario(ctx, w, "seq.fixed", case, tag.split(":")[0], n)
+            n += 1
+        for _ in range(ctx.budget(150) * scale):
+            case = random_scenario(ctx.rng)
+            run_scenario(ctx, w, "seq.random", case, "+".join(s["op"] for s in case["steps"])[:60], n)
+            n += 1
+    finally:
+        w.close()
+
+
+def search(ctx: core.Ctx):
+    pass
+
+
+def replay(ctx: core.Ctx, data: dict) -> int:
+    """Re-run a failing input (replay file written by finish, or a corpus file)."""
+    case = data.get("case", data)
+    ctx.known = []          # a replay reports the bare verdict of the oracle on this input
+    if "trees" in case:
+        w = core.Worker("py", mem_mb=2048)
+        try:
+            res = run_scenario(ctx, w, "replay", {k: case[k] for k in ("trees", "steps", "cfg") if k in case}, "replay", 0)
+        finally:
+            w.close()
+        for sr in res or []:
+            print("replay step", sr["op"], "->", sr["out"], "| diff outside payload:", sr["diff"][:4])
+    elif "path" in case and "validator" in case:
+        _check_validators(ctx, "replay", [unhx(case["path"])])
+    elif "input" in case:
+        _check_validators(ctx, "replay", [unhx(case["input"])])
+    for f in ctx.oracle_failures:
+        print("oracle:", f["what"][:300], "class:", f["class"])
+    if ctx.oracle_failures or ctx.disagreements:
+        print(f"VIOLATION property=C17 replay={data.get('_path', '<replayed>')}")
+        return 1
+    print("replay: property holds on this case")
+    return 0
